@@ -249,8 +249,8 @@ class C16(Check):
     rule = ('raw log records = mandatory keys + subsets of the 31 optional keys: every subset with <=3 keys present and every subset '
             'with <=3 keys absent (quick: <=2 / <=2), the full product over the 8 string-index keys (2^8) and over the 10 '
             'loss/signpost keys (2^10); timestamps sec {0,1,1.6e9,2^31-1,2^32-1} x usec {0,1,499999,500000,999999}; log types (5); '
-            'decomposed messages: every single-segment shape over the optional sub-keys (2 x 25 x 145) and all pairs over a reduced '
-            'set; trace identifiers: namespace (7) x every type the format defines for it x all 64 values of the general flag bits x '
+            'decomposed messages: every single-segment shape over the optional sub-keys (2 x 25 x 145), all pairs over a reduced '
+            'set, and literal-only segments before/after/between placeholder segments (placeholder count < segment count); trace identifiers: namespace (7) x every type the format defines for it x all 64 values of the general flag bits x '
             'namespace flags (log: all 32 subsets; trace: 9 values incl. 0; 0 elsewhere) x code {0,1,2^32-1}; decoded directly '
             '(all) and inside a v3 dump (subsets with <=1 key present/absent). Oracle: no exception; every present key appears in '
             'its field with its value (strings through the index, unix_date the exact UTC instant, segments in order); absent keys '
@@ -304,6 +304,15 @@ class C16(Check):
             for a, b in itertools.product(red, repeat=2):
                 self._rec(acc, {'dm'}, 'direct', {'dm': {'pc': 2, 's': 2, 'seg': [a, b]}})
             self._rec(acc, {'dm'}, 'direct', {'dm': {'pc': 0, 's': 0}})
+            # placeholder count = number of segments that carry a placeholder; literal-only segments before/after/between them
+            with_p = [x for x in shapes if 'p' in x][::29]
+            lit = {'lp': 9}
+            for a in with_p:
+                for segs in ([a, lit], [lit, a], [lit, a, lit]):
+                    self._rec(acc, {'dm'}, 'direct', {'dm': {'pc': 1, 's': 2, 'seg': segs}})
+                for b in with_p[::3]:
+                    for segs in ([a, b, lit], [a, lit, b], [lit, a, b, lit]):
+                        self._rec(acc, {'dm'}, 'direct', {'dm': {'pc': 2, 's': 2, 'seg': segs}})
         else:
             ns = desc[1]
             for ty in TYPES[ns]:
